@@ -18,8 +18,13 @@ def jRecord (r : Record) : Json :=
 def asRecord (j : Json) : R Record := do
   pure ⟨← getRatMat j "template", ← getNats j "channels", ← getRats j "amplitude", ← getNat j "best"⟩
 
+/-- `{"unsigned": bool, "bits": n}` (the dtype of the column table) → the table's "−1" -/
+def asMinusOne (j : Json) : R Int := do
+  pure (minusOne (← getBool j "unsigned") (← getNat j "bits"))
+
 def runC05 (op : String) (j : Json) : R Json := do
   let wmi ← getRatMat j "wmi"; let Tw ← getRatMat j "Tw"
+  let sc := (← optField j "scaling" asRat).getD 1      -- `template_scaling` of params.py
   let unwh ← getBool j "unwhiten"
   let impl ← optField j "impl" asRecord
   match op with
@@ -29,25 +34,31 @@ def runC05 (op : String) (j : Json) : R Json := do
     let g : Geometry := ⟨pos, shanks, ← getNat j "n_closest"⟩
     let thr ← fld j "thr" >>= asRat
     let explicit ← optField j "explicit" (asList asNat)
-    let T := if unwh then unwhiten wmi Tw none else Tw
-    let r := getTemplateDense g wmi Tw explicit thr unwh
+    let T := if unwh then unwhiten wmi sc Tw none else Tw
+    let r := getTemplateDense g wmi sc Tw explicit thr unwh
     let ok (x : Record) : Bool := match explicit with
       | none => denseOK g T thr x
       | some l => denseExplicitOK T l x
     pure (Json.mkObj [("model", jRecord r), ("model_spec", Json.bool (ok r)),
                       ("determined", Json.bool (nearDetermined g r.best)),
-                      ("impl_spec", match impl with | some x => Json.bool (ok x) | none => Json.null)])
+                      ("impl_spec", match impl with | some x => Json.bool (ok x) | none => Json.null),
+                      -- which part fails, for the message only
+                      ("impl_base", match impl, explicit with
+                        | some x, none => Json.bool (denseBaseOK g T thr x)
+                        | _, _ => Json.null),
+                      ("impl_count", match impl, explicit with
+                        | some x, none => Json.bool (nearCountOK g x.best (eligible g T thr x.best) x.channels)
+                        | _, _ => Json.null)])
   | "sparse" =>
     let cols ← getInts j "cols"
-    let r := getTemplateSparse wmi Tw cols unwh
-    let k := cols.length
-    let tmax := (List.range k).map fun jj => listMax ((col Tw jj).map fun x => if x < 0 then -x else x)
-    let keep := (List.range k).filter fun jj =>
-      decide (tmax.getD jj 0 > listMax tmax * (1 / 1000000)) && cols.getD jj 0 != -1
+    let m := (← optField j "cols_dtype" asMinusOne).getD (-1)
+    let r := getTemplateSparse wmi sc Tw cols m unwh
+    let keep := keptCols Tw cols m
     let ch := keep.map fun jj => (cols.getD jj 0).toNat
     let sub : Mat := Tw.map fun row => keep.map fun jj => row.getD jj 0
-    let Tk := if unwh then unwhiten wmi sub (some ch) else sub
+    let Tk := if unwh then unwhiten wmi sc sub (some ch) else sub
     pure (Json.mkObj [("model", jRecord r), ("model_spec", Json.bool (sparseOK ch Tk r)),
+                      ("kept", jNats ch),
                       ("impl_spec", match impl with | some x => Json.bool (sparseOK ch Tk x) | none => Json.null)])
   | _ => .error s!"C05: unknown op {op}"
 
